@@ -28,6 +28,11 @@ func (c *Ctx) handlerMapMutation(f *ssa.Function, in ssa.Instruction) (x, what s
 		}
 	}
 	if base, field, val, isSt := fieldStore(in, a.NodeT); isSt && field == a.FHandlers {
+		// dropping the whole map: a node without handlers is neither matched nor listed (liveness is the
+		// handler count, C03.R7), so its summary is unobservable until the next install rebuilds it
+		if an.IsNilConst(val) {
+			return "", "", false
+		}
 		// exempt: lazy allocation of an empty map under X.handlers == nil
 		if _, isMake := val.(*ssa.MakeMap); isMake && !hasMapUpdates(val) {
 			dom := an.DominatedByEdge(in, func(b *ssa.BasicBlock, succ int) bool {
